@@ -210,6 +210,11 @@ impl Rig {
     }
 
     async fn exec(&mut self, op: &str) -> String {
+        // a leading `!` = do not let the runtime settle after this request (the next one races with it)
+        let (op, nosettle) = match op.strip_prefix('!') {
+            Some(rest) => (rest, true),
+            None => (op, false),
+        };
         let p: Vec<&str> = op.split_whitespace().collect();
         let mut frames: Vec<String> = vec![];
         match p.as_slice() {
@@ -308,7 +313,7 @@ impl Rig {
             }
             _ => return "bad-op".into(),
         }
-        if !matches!(p.as_slice(), ["read", ..] | ["drain"] | ["stop"]) {
+        if !nosettle && !matches!(p.as_slice(), ["read", ..] | ["drain"] | ["stop"]) {
             self.settle().await;
         }
         let hist: Vec<String> = std::mem::take(&mut *self.log.lock().unwrap());
@@ -436,13 +441,20 @@ fn gen_case(rng: &mut Rng) -> Vec<String> {
     let len = rng.range(4, 40);
     let mut n = 0i32;
     let mut key_counter = 0;
+    // a remote has at most one sync outstanding per lane: it syncs again only after a `drain`
+    let mut syncing: Vec<(u64, &str)> = vec![];
     for _ in 0..len {
         let r = rng.range(1, nr);
         let c = rng.below(100);
         if c < 14 {
             ops.push(format!("link {} {}", r, rng.pick(&lanes[..3])));
         } else if c < 24 {
-            ops.push(format!("sync {} {}", r, rng.pick(&lanes[..2])));
+            let lane = *rng.pick(&lanes[..2]);
+            if syncing.contains(&(r, lane)) {
+                continue;
+            }
+            syncing.push((r, lane));
+            ops.push(format!("sync {} {}", r, lane));
         } else if c < 28 {
             ops.push(format!("unlink {} {}", r, rng.pick(&lanes[..3])));
         } else if c < 30 {
@@ -466,6 +478,7 @@ fn gen_case(rng: &mut Rng) -> Vec<String> {
         } else if c < 95 {
             ops.push(format!("read {} {}", r, rng.range(1, 4)));
         } else {
+            syncing.clear();
             ops.push("drain".into());
         }
     }
@@ -473,7 +486,18 @@ fn gen_case(rng: &mut Rng) -> Vec<String> {
     if rng.chance(1, 2) {
         ops.push("stop".into());
     }
-    ops
+    // bursts: about half of the requests are not followed by a settle
+    let burst = rng.below(3);
+    ops.into_iter()
+        .map(|o| {
+            let is_req = o.starts_with("link") || o.starts_with("sync") || o.starts_with("unlink") || o.starts_with("cmd");
+            if is_req && burst > 0 && rng.chance(burst, 3) {
+                format!("!{}", o)
+            } else {
+                o
+            }
+        })
+        .collect()
 }
 
 fn main() {
